@@ -137,4 +137,44 @@ CHECKS["C15"] = {
     "note": TB,
 }
 
+CHECKS["C09"] = {
+    "technique": "runtime monitoring: big-int reference oracle on "
+                 "QAPObjective / qap.Instance / from_qaplib_stream over "
+                 "generated asymmetric matrices at storage-type edges and "
+                 "randomly wrapped QAPLIB text",
+    "text": "Real instances are built directly and through the QAPLIB reader "
+            "from generated asymmetric matrices whose trivial upper bound "
+            "lands at int8..int64 edges (a permutation attaining the bound "
+            "included); value, stored matrices and lb <= v <= ub are "
+            "compared with a big-int recomputation for random / extremal / "
+            "all (n<=6) permutations. Held on what was evaluated.",
+    "note": TB,
+}
+CHECKS["C18"] = {
+    "technique": "runtime monitoring: harness-written TSPLIB95 files "
+                 "(explicit formats with random wrapping, coordinate types) "
+                 "loaded by the real reader and compared with the format's "
+                 "definition; to_stream round trip; shipped tours vs optimum",
+    "text": "The real reader/writer is run on generated files: round trips, "
+            "four explicit encodings of the same matrix with random line "
+            "wrapping, and EUC_2D/CEIL_2D/ATT/GEO coordinate files judged by "
+            "TSPLIB95 distance definitions (exact integer arithmetic where "
+            "possible). All shipped optimal tours are re-measured against "
+            "the documented optima. Held on the files explored.",
+    "note": TB,
+}
+CHECKS["C20"] = {
+    "technique": "runtime monitoring: reference-model oracle on "
+                 "order1d.Instance.from_sequence_and_distance with position "
+                 "tags; exhaustive swap_distance over all permutation pairs "
+                 "up to length 6/7 vs. a BFS table",
+    "text": "Instances built by the real factory from generated sequences "
+            "with duplicates and ties are judged against an own "
+            "representative/average-rank model (mapping, |i-j| distances, "
+            "flow ordering, horizon). swap_distance is executed on every "
+            "pair of permutations up to length 6 (7 thorough) and compared "
+            "with minimal transposition counts from BFS.",
+    "note": TB,
+}
+
 NOT_APPLICABLE = {}
